@@ -215,6 +215,20 @@ class RealSys:
         self.tasks_before: set = set()
         self.settle_rounds: List[int] = []
         self.extra_log: List[str] = []
+        # what has been seen on the wire, per channel (for the judgment of closed channels while the connection is up)
+        self.copen: Dict[int, int] = {}                  # id(create_session task) -> client channel number of its OPEN
+        self.sopen: List[Optional[int]] = []             # per server session: client channel number of the OPEN asking for it
+        self.cur_open: Optional[int] = None              # the OPEN being delivered to the server right now
+        self.down: Dict[str, bool] = {'c': False, 's': False}       # the side is closing / has been told to close
+        self.pairmap: Dict[int, int] = {}                # client channel number -> server channel number (from CONF)
+        self.closein: Dict[str, set] = {'c': set(), 's': set()}     # local numbers whose CLOSE has been delivered
+        self.closeout: Dict[str, set] = {'c': set(), 's': set()}    # peer numbers for which a CLOSE has been written
+        self.datain: Dict[str, Dict[int, int]] = {'c': {}, 's': {}}  # DATA packets delivered per local number
+        self.apppaused: Dict[Tuple[str, int], bool] = {}
+        self.cur_line = 0
+        self.mid: List[Tuple[int, str, str]] = []        # (script line, signature, detail) of closed-channel violations
+        self.mid_seen: set = set()
+        self.judged: Dict[str, int] = {}
 
     # ---- construction ---------------------------------------------------------------------------------
     def _factories(self) -> Tuple[Any, Any]:
@@ -233,6 +247,7 @@ class RealSys:
             def session_requested(self) -> Any:
                 me.owner_log['s'].append('session_requested')
                 j = len(me.ssess)
+                me.sopen.append(me.cur_open)
                 cfg = me.scfg[j] if j < len(me.scfg) else dict(mode='accept', pty=True, req=True, eof=True, armed=False)
                 if cfg['mode'] == 'refuse':
                     me.ssess.append(None)
@@ -280,6 +295,7 @@ class RealSys:
             else:
                 desc = 'raw'
             me.pending[direction].append((desc, len(data)))
+            me._note_written(direction, desc)
             return data
         hub.filter = flt
         hub._finish_closes = lambda: None        # closes propagate only on `lose` lines
@@ -294,6 +310,105 @@ class RealSys:
         self.conn = {'c': c, 's': s}
         self._install_hub(hub)
         hub.auto = False
+
+    # ---- wire bookkeeping ----------------------------------------------------------------------------
+    def _note_written(self, direction: str, desc: Optional[str]) -> None:
+        ws = (desc or '').split()
+        if not ws:
+            return
+        side = 'c' if direction == pair.C2S else 's'
+        try:
+            if ws[0] == 'open' and side == 'c':
+                t = asyncio.current_task()
+                if t is not None:
+                    self.copen.setdefault(id(t), int(ws[1]))
+            elif ws[0] == 'conf' and side == 's':
+                self.pairmap[int(ws[1])] = int(ws[2])
+            elif ws[0] == 'close':
+                self.closeout[side].add(int(ws[1]))
+        except (ValueError, IndexError):
+            pass
+
+    def _note_delivered(self, rside: str, desc: str) -> None:
+        ws = desc.split()
+        try:
+            if ws[0] == 'close':
+                self.closein[rside].add(int(ws[1]))
+            elif ws[0] == 'data':
+                d = self.datain[rside]
+                d[int(ws[1])] = d.get(int(ws[1]), 0) + 1
+            elif ws[0] == 'disc':
+                self.down[rside] = True
+        except (ValueError, IndexError):
+            pass
+
+    def _numbers(self, side: str, i: int) -> Tuple[Optional[int], Optional[int]]:
+        """(local channel number, peer's channel number) of the i-th session of a side, as far as the wire told."""
+        if side == 'c':
+            cn = self.copen.get(id(self.ctasks[i])) if i < len(self.ctasks) else None
+            if cn is None:
+                return None, None
+            return cn, self.pairmap.get(cn)
+        cn = self.sopen[i] if i < len(self.sopen) else None
+        if cn is None:
+            return None, None
+        return self.pairmap.get(cn), cn
+
+    def judge_closed(self) -> None:
+        """The property for ONE channel while the connection stays up: once the peer's CLOSE has reached an endpoint
+        and the event loop has drained, that endpoint has answered with its own CLOSE, `create_session` and
+        `wait_closed` on the channel are resolved, the session got its final `connection_lost` and the channel is
+        gone from the connection's table -- whatever phase (start-up included) the channel was in.  Only a reader
+        the APPLICATION paused while data is still buffered may keep the channel (it must resume first)."""
+        if len(self.loop._ready) > 0:                       # type: ignore[attr-defined]
+            return
+        for side in 'cs':
+            conn = self.conn.get(side)
+            if conn is None or self.lost[side] or self.down[side] or conn.is_closed():
+                continue
+            lst: List[Any] = self.csess if side == 'c' else self.ssess
+            for i, sess in enumerate(lst):
+                if sess is None:
+                    continue
+                loc, peer = self._numbers(side, i)
+                if loc is None or loc not in self.closein[side]:
+                    continue
+                role = 'client' if side == 'c' else 'server'
+                phase = 'running' if 'started' in sess.log else 'startup'
+                key = f'{role}:{phase}'
+                sym: List[str] = []
+                if side == 'c' and i < len(self.ctasks) and not self.ctasks[i].done():
+                    sym.append('create_session-pending')
+                if 'made' in sess.log and not any(x.startswith('lost') for x in sess.log):
+                    sym.append('connection_lost-missing')
+                if any(not t.done() for t in sess.wc):
+                    sym.append('wait_closed-pending')
+                if loc in conn._channels:
+                    sym.append('still-registered')
+                if peer is not None and peer not in self.closeout[side]:
+                    sym.append('close-not-returned')
+                undelivered = self.datain[side].get(loc, 0) - sess.log.count('data')
+                if (side, i, 'j') not in self.mid_seen:
+                    self.mid_seen.add((side, i, 'j'))
+                    self.judged[key] = self.judged.get(key, 0) + 1
+                if not sym:
+                    continue
+                if self.apppaused.get((side, i)) and undelivered > 0:
+                    if (side, i, 'e') not in self.mid_seen:
+                        self.mid_seen.add((side, i, 'e'))
+                        self.judged['exempt:application-paused-reader'] = \
+                            self.judged.get('exempt:application-paused-reader', 0) + 1
+                    continue
+                if (side, i) in self.mid_seen:
+                    continue
+                self.mid_seen.add((side, i))
+                sig = f'closed-channel-never-cleaned-up:{role}:{phase}:' + \
+                      ('undelivered-data:' if undelivered > 0 else '') + sym[0]
+                self.mid.append((self.cur_line, sig,
+                                 f'{side}{i} (channel {loc}): the peer\'s CLOSE was delivered, the connection is up and the '
+                                 f'event loop has drained, yet: {", ".join(sym)}; session log {self._join(sess.log)}; '
+                                 f'{max(0, undelivered)} DATA packet(s) received but not handed to the session; '
+                                 f'reading paused by the application: {bool(self.apppaused.get((side, i)))}'))
 
     # ---- script execution -----------------------------------------------------------------------------
     def _sess(self, side: str, i: int) -> Optional[Sess]:
@@ -355,6 +470,10 @@ class RealSys:
                     return 'bad-op'
             except Exception as e:
                 return 'raised:' + exc_name(e)
+            if o == 'pause':
+                self.apppaused[(side, i)] = True
+            elif o == 'resume':
+                self.apppaused[(side, i)] = False
             return 'ok'
         if cmd == 'wc':
             sess = self._sess(ws[1], int(ws[2]))
@@ -386,9 +505,11 @@ class RealSys:
             self.pffut[j].set_result(False)
             return 'ok'
         if cmd == 'cclose':
+            self.down[ws[1]] = True
             self.conn[ws[1]].close()
             return 'ok'
         if cmd == 'cabort':
+            self.down[ws[1]] = True
             self.conn[ws[1]].abort()
             return 'ok'
         if cmd == 'dl':
@@ -408,7 +529,10 @@ class RealSys:
                     break
             if desc is None:
                 return 'empty'
+            self.cur_open = int(desc.split()[1]) if desc.startswith('open ') and rside == 's' else None
             self.hub.deliver(d, n)
+            self.cur_open = None
+            self._note_delivered(rside, desc)
             return desc
         if cmd == 'tick':
             await asyncio.sleep(0)
@@ -419,6 +543,7 @@ class RealSys:
                 await asyncio.sleep(0)
                 n += 1
             self.settle_rounds.append(n)
+            self.judge_closed()
             return f'{n} ' + ('quiet' if len(self.loop._ready) == 0 else 'busy')   # type: ignore[attr-defined]
         if cmd == 'lose':
             side, reset = ws[1], ws[2] == '1'
@@ -430,6 +555,7 @@ class RealSys:
             self.hub._lose(t, ConnectionResetError('reset by harness') if reset else None)
             return 'ok'
         if cmd == 'show':
+            self.judge_closed()
             return self.show()
         return 'bad-op'
 
@@ -509,8 +635,9 @@ async def run_script(lines: List[str], tags: SendTags) -> Tuple[List[str], Dict[
     out: List[str] = []
     info: Dict[str, Any] = {}
     try:
-        for ln in lines:
+        for idx, ln in enumerate(lines):
             ws = ln.split()
+            rs.cur_line = idx
             if ws[0] == 'reset':
                 await rs.start(int(ws[1]))
                 out.append('ok')
@@ -519,6 +646,8 @@ async def run_script(lines: List[str], tags: SendTags) -> Tuple[List[str], Dict[
         info['leftover_tasks'] = rs.leftover_tasks()
         info['loop_errors'] = [str(c.get('exception') or c.get('message')) for c in pair.LOOP_ERRORS]
         info['settle_rounds'] = rs.settle_rounds
+        info['mid'] = rs.mid
+        info['judged'] = rs.judged
     finally:
         await rs.finish()
         pair.LOOP_ERRORS.clear()
